@@ -291,6 +291,8 @@ var c10TextCases = []c10TextCase{
 	{name: "text-rules", text: ":- dynamic(foo/1). :- dynamic(bar/1). bar(@0). bar(@1). foo(X) :- bar(X), X \\== @0. foo(Y) :- Y = [@1|_].", probes: []string{"foo(A)."}, preds: []string{"foo/1", "bar/1"}},
 	{name: "text-strings", text: ":- dynamic(foo/2). foo(\"a@0\", X) :- X = \"\". foo([H|T], H-T).", probes: []string{"foo(A, B).", "foo(\"xy\", R)."}, preds: []string{"foo/2"}},
 	{name: "text-cut-and-var-goal", text: ":- dynamic(foo/2). :- dynamic(bar/1). bar(@0). bar(@1). foo(G, X) :- bar(X), G, !. foo(_, none).", probes: []string{"foo(true, X).", "foo(fail, X)."}, preds: []string{"foo/2"}},
+	{name: "text-same-variable-names", text: ":- dynamic(foo/1). :- dynamic(bar/1). foo(X). bar(X) :- baz(X). baz(_).", probes: []string{"retract(foo(@0)), clause(bar(Y), B).", "bar(Y)."}, preds: []string{"bar/1"}},
+	{name: "text-same-variable-names-2", text: ":- dynamic(foo/2). :- dynamic(bar/2). foo(X, Y) :- Y = X. foo(_, X) :- X = @1. bar(Y, X) :- X = @0.", probes: []string{"retract((bar(@1, Z) :- B)), clause(foo(P, Q), R).", "foo(P, Q)."}, preds: []string{"foo/2"}},
 	{name: "text-static-call", text: "bar(@0). bar(@1). foo(X, Y) :- bar(X), bar(Y), X @< Y.", probes: []string{"foo(A, B)."}, preds: nil},
 }
 
@@ -337,6 +339,8 @@ func VH_C10_text(vm *VM, inst int) {
 		}
 	}
 	for _, q := range c.probes {
+		q = strings.ReplaceAll(q, "@0", letters[0])
+		q = strings.ReplaceAll(q, "@1", letters[1])
 		impl, ref := c10Run(vm, newM, q, consts, 6)
 		vCompareRuns(c.name+"/probe", impl, ref, "", false)
 	}
